@@ -611,6 +611,7 @@ oracle: valid_layering(groups, requested set, dep). non-trivial = at least one d
     ctx.assumptions = vec!["any valid layering is accepted, not only Kahn's".into()];
     ctx.drive_all("golden", golden_c03(), "golden regression cases", |c, _| check_cfg(c, Side::Acyclic));
     exhaustive(ctx, Side::Acyclic);
+    exhaustive_through_index(ctx, Side::Acyclic);
     let n = ctx.n(20_000, 500_000);
     ctx.drive("dag-random", || random_dag(40, false), n / 2, |c, _| check_dag(c, Side::Acyclic));
     ctx.drive("config", || cfg_strategy(12, CycleMode::Acyclic), n / 2, |c, _| check_cfg(c, Side::Acyclic));
@@ -632,6 +633,7 @@ oracle: error (graph/cycle), never groups, no panic, no hang (30 s watchdog). no
         .to_string();
     ctx.assumptions = vec!["error wording is not judged beyond naming a cycle / type graph".into()];
     exhaustive(ctx, Side::Cyclic);
+    exhaustive_through_index(ctx, Side::Cyclic);
     let n = ctx.n(10_000, 300_000);
     ctx.drive("dag-random", || random_dag(40, true), n / 2, |c, _| check_dag(c, Side::Cyclic));
     ctx.drive("config", || cfg_strategy(10, CycleMode::ForcedCycle), n / 2, |c, _| check_cfg(c, Side::Cyclic));
@@ -653,6 +655,38 @@ fn exhaustive(ctx: &Ctx, side: Side) {
             &format!("all digraphs without self loops on {} labelled nodes x all non-empty root subsets", n),
             |i| dag_case(n, (i / roots) as u64, (i % roots + 1) as u64),
             |c, _| check_dag(c, side),
+        );
+    }
+}
+
+/// Every digraph on n <= 4 nodes as a configuration (flat targets, one `uses` entry per edge),
+/// every non-empty set of named roots: the same graphs as `dag-exhaustive`, but through
+/// `Index::new` - whatever it does to the edges it was given - and `analyze`.
+fn exhaustive_through_index(ctx: &Ctx, side: Side) {
+    const NAMES: [&str; 4] = ["a", "lib", "app2", "é"];
+    for n in 2..=4usize {
+        let ebits = n * (n - 1);
+        let roots = (1usize << n) - 1;
+        let total = (1usize << ebits) * roots;
+        ctx.drive_range(
+            &format!("config-exhaustive-n{}", n),
+            total,
+            &format!("all digraphs without self loops on {} flat targets (one uses entry per edge) x all non-empty sets of named targets, through the index", n),
+            |i| {
+                let d = dag_case(n, (i / roots) as u64, (i % roots + 1) as u64);
+                let mut targets = vec![];
+                for k in 0..n {
+                    let mut t = model::TargetSpec::new(NAMES[k]);
+                    t.uses = d.adj[k].iter().map(|&j| NAMES[j].to_string()).collect();
+                    targets.push(t);
+                }
+                CfgCase {
+                    config: ConfigSpec { targets, ..Default::default() },
+                    visible: d.roots.iter().map(|&r| NAMES[r].to_string()).collect(),
+                    changes: vec![],
+                }
+            },
+            |c, _| check_cfg(c, side),
         );
     }
 }
